@@ -1,3 +1,3 @@
 Require Import ExtrOcamlBasic.
-From Eupsv Require Import Base.Base Model.Db Model.Cache.
-Extraction "model.ml" keep_types init_world run_proc_S delete_cache q_cache q_db uq_cache uq_db uq_files q_served uq_served fallbacks upsdb.
+From Eupsv Require Import Base.Base Model.Db Model.Cache Model.CacheLive.
+Extraction "model.ml" keep_types init_world run_proc_S delete_cache q_cache q_db uq_cache uq_db uq_files q_served uq_served fallbacks upsdb run_lstep_S pk_get key_eqb glookup.
